@@ -85,7 +85,9 @@ def finish(prop, tier, seed, obligations, undecided, notes, vr, kr, wall, write_
         ob.detail = remaining
         # counterexample
         text, reproduced = "", False
-        if ob.backend.startswith("kani") and len(violations) < 3:
+        if ob.backend.startswith("rustc"):
+            text = (kr.extra.get("replay_text", "") if kr else "")
+        elif ob.backend.startswith("kani") and len(violations) < 3:
             if kani_meta is None:
                 kani_meta = kani_backend.load_meta()
             m = kani_meta.get(ob.name.split("::")[-1])
